@@ -179,3 +179,26 @@ func GetModel(script, solver string, timeoutS int) string {
 	}
 	return ""
 }
+
+// SolveCanary checks that a script is not refutable within a short budget
+// (one solver). "not refutable" outcomes are cached too: the key is the script.
+func SolveCanary(script string, timeoutS int) SolveResult {
+	h := sha256.Sum256([]byte(solverVersions + "\ncanary\n" + script))
+	key := hex.EncodeToString(h[:])
+	if cacheDir != "" && !noCache {
+		if data, err := os.ReadFile(filepath.Join(cacheDir, key+".json")); err == nil {
+			var r SolveResult
+			if json.Unmarshal(data, &r) == nil && r.Status != "" {
+				r.Cached = true
+				return r
+			}
+		}
+	}
+	r := Solve(script, timeoutS, []string{"z3-new"})
+	if cacheDir != "" && r.Status != "error" {
+		os.MkdirAll(cacheDir, 0o755)
+		data, _ := json.Marshal(r)
+		os.WriteFile(filepath.Join(cacheDir, key+".json"), data, 0o644)
+	}
+	return r
+}
